@@ -287,7 +287,7 @@ func genRTW(out *vc.Out, r *vc.Rand, thorough bool) {
 	if thorough {
 		e2e = 1500
 	}
-	sizes := []int{0, 0, 1, 2, 5, 100, 1023, 1024, 1025, 4096, 4097, 40000, 70000}
+	sizes := []int{0, 0, 1, 2, 5, 100, 1023, 1024, 1025, 4096, 4097, 40000, 65535, 65536, 65537, 70000, 131072, 196608}
 	for i := 0; i < e2e; i++ {
 		var pk []pkt
 		for j, n := 0, 1+r.Intn(6); j < n; j++ {
